@@ -106,10 +106,59 @@ func TestCheck(t *testing.T) {
 		defer w.Close()
 		s, probs := w.Connect()
 		probs = append(probs, w.SendParams(s, drv.SinglePrimary(fib))...)
-		elec := &spb.Uint128{High: uint64(r.Intn(2)), Low: 1 + uint64(r.Intn(100))}
+		elec := &spb.Uint128{High: uint64(r.Intn(2)), Low: 2 + uint64(r.Intn(100))}
 		probs = append(probs, w.SendElection(s, elec)...)
 		total := 30 + r.Intn(200)
 		for sent := 0; sent < total && len(probs) == 0 && s.Open; {
+			switch r.Intn(12) {
+			case 0:
+				// a Flush RPC between batches: it removes entries, it answers nothing on the
+				// stream, and operations that are held stay held (they are acknowledged when
+				// their reference arrives, or the session would wait for ever)
+				nis := g.S.NIs
+				req := &spb.FlushRequest{NetworkInstance: &spb.FlushRequest_All{All: &spb.Empty{}}, Election: &spb.FlushRequest_Override{Override: &spb.Empty{}}}
+				if r.Intn(2) == 0 {
+					nis = []string{g.S.NIs[r.Intn(len(g.S.NIs))]}
+					req.NetworkInstance = &spb.FlushRequest_Name{Name: nis[0]}
+				}
+				if r.Intn(2) == 0 {
+					req.Election = &spb.FlushRequest_Id{Id: elec}
+				}
+				if _, err, wd := drv.Flush(w.Srv, req); wd != nil {
+					probs = append(probs, "INCONCLUSIVE|Flush did not return within the watchdog")
+				} else if err != nil {
+					probs = append(probs, fmt.Sprintf("flush-error|authorised Flush of %v: %v", nis, err))
+				}
+				w.X.M.Flush(nis)
+				w.Trace = append(w.Trace, fmt.Sprintf("Flush RPC %v (held: %v)", nis, w.X.M.HeldIDs()))
+				probs = append(probs, w.CompareState()...)
+				probs = append(probs, w.QuietOthers(nil)...)
+				run.Count("flush_rpcs_between_batches", 1)
+				if len(w.X.M.Held) > 0 {
+					run.Count("flush_rpcs_while_operations_are_held", 1)
+				}
+				continue
+			case 1:
+				// a standby comes and goes (negotiates, perhaps announces a lower id, leaves in
+				// one of three ways): nothing of the primary's may be touched by that
+				st, p := w.Connect()
+				probs = append(probs, p...)
+				if st != nil && len(p) == 0 {
+					probs = append(probs, w.SendParams(st, drv.SinglePrimary(fib))...)
+					if r.Intn(2) == 0 && len(probs) == 0 {
+						probs = append(probs, w.SendElection(st, &spb.Uint128{High: elec.High, Low: elec.Low - 1})...)
+					}
+					if len(probs) == 0 && st.Open {
+						probs = append(probs, w.Disconnect(st, []string{"close", "cancel", "abort"}[r.Intn(3)])...)
+					}
+					probs = append(probs, w.CompareState()...)
+					run.Count("standby_sessions_that_came_and_went", 1)
+					if len(w.X.M.Held) > 0 {
+						run.Count("standby_left_while_operations_are_held", 1)
+					}
+				}
+				continue
+			}
 			n := 1 + r.Intn(8)
 			if r.Intn(12) == 0 {
 				n = 50 + r.Intn(150)
@@ -240,5 +289,5 @@ func TestCheck(t *testing.T) {
 		}
 	})
 	run.Assume("a held operation whose session lost the primary role or ended may stay unanswered and without effect, or be answered later on its own still-open stream; anything else (a result on another stream, an effect without an answer) is a violation")
-	run.Finish("(a) single-session histories of 30-230 operations from the C01 generator through the server (RIB- and FIB-acknowledging sessions, batches of 1-200 operations per request, empty and unknown network-instance names, forward references allowed / disallowed); (b) hand-over scripts: A leaves operations held (group behind a missing next-hop, entries behind the group), B announces an equal or higher id while A is connected / already gone / leaves afterwards / re-announces, B installs the missing dependency using operation ids that collide with A's. Every response is attributed to its operation (one ModifyResponse per operation, barrier-delimited) and judged by the RIB model; per stream the multiset of results over the whole history is accounted at the end. Distinct = by script", 200, false)
+	run.Finish("(a) single-session histories of 30-230 operations from the C01 generator through the server (RIB- and FIB-acknowledging sessions, batches of 1-200 operations per request, empty and unknown network-instance names, forward references allowed / disallowed; between batches Flush RPCs (all / one instance, override / the primary's id) and standby sessions that negotiate, perhaps announce a lower id, and leave - held operations must survive both and be answered when their reference arrives); (b) hand-over scripts: A leaves operations held (group behind a missing next-hop, entries behind the group), B announces an equal or higher id while A is connected / already gone / leaves afterwards / re-announces, B installs the missing dependency using operation ids that collide with A's. Every response is attributed to its operation (one ModifyResponse per operation, barrier-delimited) and judged by the RIB model; per stream the multiset of results over the whole history is accounted at the end. Distinct = by script", 200, false)
 }
